@@ -150,8 +150,11 @@ struct FPar
 {
   int kind;
   double a, b, c;
+  double scale = 1.0; // the relative-tolerance contract does not depend on the magnitude of the integrand
 };
-static double smooth(double x, void * params)
+static double smooth1(double x, void * params);
+static double smooth(double x, void * params) { return ((FPar *)params)->scale * smooth1(x, params); }
+static double smooth1(double x, void * params)
 {
   FPar * p = (FPar *)params;
   switch (p->kind) {
@@ -200,7 +203,9 @@ static void gauss_group(Group & g, verif::Rng & rng, int ncases)
     if (p.kind == 5) { lo = std::fabs(lo); hi = lo + 0.2 + 2.5 * rng.uniform(); }
     if (p.kind == 6) p.a = 4 + 40 * rng.uniform();
     if (p.kind == 7) { p.a = 0.02 + 0.2 * rng.uniform(); p.b = lo + (hi - lo) * (0.2 + 0.6 * rng.uniform()); }
-    long double ex = smooth_exact(p, lo, hi);
+    static const double scales[] = {1.0, 1e-6, 1e-12, 1e-20, 1e-60, 1e9};
+    p.scale = scales[(c / 8) % 6];
+    long double ex = (long double)p.scale * smooth_exact(p, lo, hi);
     for (double tol : tols) {
       double r = decay0_gauss(smooth, lo, hi, tol, &p);
       // did the first attempt (same routine, same arguments) miss its tolerance?
@@ -220,13 +225,13 @@ static void gauss_group(Group & g, verif::Rng & rng, int ncases)
       gsl_set_error_handler(old);
       double err = (double)(std::fabs((long double)r - ex) / std::fabs(ex));
       g.n++;
-      g.distinct.insert(fmt("k%d/tol%g/st%d/%d", p.kind, tol, st, st2));
+      g.distinct.insert(fmt("k%d/tol%g/st%d/%d/x%g", p.kind, tol, st, st2, p.scale));
       if (st != 0 && st2 != 0) continue; // QNG gave up twice: the wrapper promises nothing (it prints an error)
       if (err / allowed > g.maxerr) g.maxerr = err / allowed;
       if (!(err <= allowed + 4e-16)) {
         g.fail(fmt("gauss|kind%d|tolerance", p.kind),
-               fmt("kind %d a=%.6g b=%.6g c=%.6g on [%.6g,%.6g] tol %g: got %.17g exact %.17Lg relerr %.3g (first status %d)",
-                   p.kind, p.a, p.b, p.c, lo, hi, tol, r, ex, err, st));
+               fmt("kind %d a=%.6g b=%.6g c=%.6g scaled by %g on [%.6g,%.6g] tol %g: got %.17g exact %.17Lg relerr %.3g (first status %d)",
+                   p.kind, p.a, p.b, p.c, p.scale, lo, hi, tol, r, ex, err, st));
       }
     }
   }
